@@ -233,8 +233,12 @@ def _mk_fs(rng, nfiles, tname):
         if rng.random() < 0.05:
             text += rng.choice(["\U0001d4b3 non-BMP \U0001f389", "\u2028line sep", "tab\there", "\x0bvt", "nul\x00byte", "\x85nel", "\x0cff"])
         p = "/simfs/%s/f%d.feature" % (tname, i)
-        if rng.random() < 0.06:  # a file NAME with glob metacharacters, next to a file the pattern would match
+        if rng.random() < 0.08:  # a file whose name does not end in .feature (query string, fragment, upper case, other suffix, none)
+            p = "/simfs/%s/f%d%s" % (tname, i, rng.choice([".feature?rev=2", ".feature#L3", ".FEATURE", ".txt", "", ".feature.md", ".md", " with space.feature", "-\u00fcn\u00ef.feature"]))
+        elif rng.random() < 0.06:  # a file NAME with glob metacharacters, next to a file the pattern would match
             p = "/simfs/%s/f[%d].feature" % (tname, i) if rng.random() < 0.5 else "/simfs/%s/f?%d*.feature" % (tname, i)
+        if rng.random() < 0.02:
+            text += "step with NUL \x00 inside\n"
         r = rng.random()
         if r < 0.04:
             b = bytearray(text.encode("utf-8") or b"x")
